@@ -39,7 +39,7 @@ def main() -> int:
         return run.finish()
     items, info = ormrun.scalar_items(run.tier, run.seed, {3: 600, 4: 250, 5: 100, 6: 30},
                                       {3: 14000, 4: 8000, 5: 4000, 6: 1500, 7: 500}, 700, (100, 150), (3000, 3000))
-    timeout_ms = 10000 if quick else 60000
+    timeout_ms = 60000 if quick else 120000
     rng = random.Random(run.seed + 1)
     for it in items:
         it.update(backends=BACKENDS, pairs=True, timeout_ms=timeout_ms,
